@@ -1,0 +1,72 @@
+//go:build verif
+
+package vgirpc
+
+import (
+	"errors"
+	"net/http"
+)
+
+// Verification hooks (build tag "verif") for request-body reading and
+// decoding. Add-only thin wrappers; nothing here is compiled into normal
+// builds.
+
+// VerifC18ReadBody exposes readHTTPBody.
+func (h *HttpServer) VerifC18ReadBody(r *http.Request) ([]byte, error) {
+	return h.readHTTPBody(r)
+}
+
+// VerifC18IsExempt exposes isMaxBytesExempt.
+func (h *HttpServer) VerifC18IsExempt(path string) bool {
+	return h.isMaxBytesExempt(path)
+}
+
+// VerifC18DecompressBounded exposes decompressBounded.
+func VerifC18DecompressBounded(encoding string, data []byte, maxOutput int64) ([]byte, error) {
+	return decompressBounded(encoding, data, maxOutput)
+}
+
+// VerifC18ErrorKind classifies an error of readHTTPBody / decompressBounded:
+// "too-large" (with its limit), "unsupported", "value" (RpcError ValueError),
+// "other".
+func VerifC18ErrorKind(err error) (kind string, limit int64) {
+	var tooLarge *requestBodyTooLargeError
+	if errors.As(err, &tooLarge) {
+		return "too-large", tooLarge.Limit
+	}
+	var unsup *unsupportedEncodingError
+	if errors.As(err, &unsup) {
+		return "unsupported", 0
+	}
+	var rpcErr *RpcError
+	if errors.As(err, &rpcErr) && rpcErr.Type == "ValueError" {
+		return "value", 0
+	}
+	return "other", 0
+}
+
+type verifC18StatusWriter struct {
+	hdr    http.Header
+	status int
+}
+
+func (w *verifC18StatusWriter) Header() http.Header { return w.hdr }
+func (w *verifC18StatusWriter) Write(b []byte) (int, error) {
+	if w.status == 0 {
+		w.status = http.StatusOK
+	}
+	return len(b), nil
+}
+func (w *verifC18StatusWriter) WriteHeader(code int) {
+	if w.status == 0 {
+		w.status = code
+	}
+}
+
+// VerifC18BodyErrorStatus runs writeBodyReadError and returns the HTTP status
+// it answers with.
+func (h *HttpServer) VerifC18BodyErrorStatus(err error) int {
+	w := &verifC18StatusWriter{hdr: http.Header{}}
+	h.writeBodyReadError(w, err, nil)
+	return w.status
+}
